@@ -259,6 +259,56 @@ func (fakeObj) Disasm(file string, start, end uint64, intel bool) ([]plugin.Inst
 	}
 	return out, nil
 }
+// strippedObj: a disassembler that knows no function, file or line for its instructions (a stripped binary): the
+// listing takes them from the profile's samples at that address
+type strippedObj struct{ fakeObj }
+
+func (strippedObj) Disasm(file string, start, end uint64, intel bool) ([]plugin.Inst, error) {
+	var out []plugin.Inst
+	for a := start; a <= end; a += 4 {
+		out = append(out, plugin.Inst{Addr: a, Text: fmt.Sprintf("op %x", a&0xf)})
+	}
+	return out, nil
+}
+
+// several report entries at ONE address (an inlined call: callee and caller frames of the same instruction, in
+// different files): whose name, file and line annotate the instruction must not depend on map iteration
+func disasmInlinedPart(reps int) {
+	m := &profile.Mapping{ID: 1, Start: 0x1000, Limit: 0x2000, File: "bin1"}
+	p := &profile.Profile{SampleType: []*profile.ValueType{{Type: "samples", Unit: "count"}}, PeriodType: &profile.ValueType{Type: "cpu", Unit: "ns"}, Period: 1,
+		Mapping: []*profile.Mapping{m}}
+	id := uint64(0)
+	for _, a := range []uint64{0x1104, 0x1108, 0x110c} {
+		l := &profile.Location{ID: a, Mapping: m, Address: a}
+		for k, name := range []string{"inlined_leaf", "inlined_mid", "dup"} {
+			id++
+			fn := &profile.Function{ID: id, Name: name, SystemName: name, Filename: fmt.Sprintf("file%d.c", k)}
+			p.Function = append(p.Function, fn)
+			l.Line = append(l.Line, profile.Line{Function: fn, Line: int64(10*(k+1)) + int64(a&0xf)})
+		}
+		p.Location = append(p.Location, l)
+		p.Sample = append(p.Sample, &profile.Sample{Location: []*profile.Location{l}, Value: []int64{5}})
+	}
+	var first []byte
+	for k := 0; k < reps*6; k++ {
+		res := vdrv.Run(vdrv.Opts{Args: []string{"-disasm=dup", "-output=out", "src"}, Obj: strippedObj{}, Fetch: func(string) (*profile.Profile, error) { return p.Copy(), nil }})
+		if res.Panic != nil || res.Err != nil {
+			run.Note(fmt.Sprintf("disasm of inlined frames: %v %v", res.Err, res.Panic))
+			return
+		}
+		run.Count("disasm-inlined")
+		if first == nil {
+			first = res.Files["out"]
+			if !bytes.Contains(first, []byte("inlined_")) && !bytes.Contains(first, []byte("file")) {
+				run.Note("disasm of inlined frames: the listing carries no annotation from the samples:\n" + clip(first))
+			}
+		} else if !bytes.Equal(first, res.Files["out"]) {
+			run.Violate("pipeline", "nondeterministic-output:disasm-inlined", fmt.Sprintf("run %d of -disasm=dup (three frames per address, disassembler without line information) differs from run 0:\n%s\nvs\n%s", k, clip(first), clip(res.Files["out"])), nil, nil)
+			return
+		}
+	}
+}
+
 func (f fakeFile) Name() string                        { return f.name }
 func (f fakeFile) ObjAddr(addr uint64) (uint64, error) { return addr, nil }
 func (f fakeFile) BuildID() string                     { return "" }
@@ -404,6 +454,7 @@ func pipeline(reps int, dump string) {
 	}
 	redundantEdgesPart(reps)
 	disasmPart(reps)
+	disasmInlinedPart(reps)
 	mergeRepeatPart(reps)
 	legacyParseRepeatPart(reps)
 	symbolizeRepeatPart(reps)
